@@ -47,4 +47,9 @@ def test_replay(path):
   if "-known-" in os.path.basename(path):
     assert first is not None and first[0] == art["key"], "known finding no longer reproduces"
   else:
+    if first is not None and "/seeded/" in path and first[0] != art["key"] and first[0].startswith("harness-exception"):
+      # the artefact of a seeded change may name something that exists only WITH the change (a strategy the
+      # change added, a schedule over synchronisation points the change introduced): on the unchanged tree
+      # such a case cannot be run at all, which is not the violation coming back
+      pytest.skip("the case refers to something that exists only with the seeded change applied")
     assert first is None, "violation %s still reproduces: %s" % (art["key"], art["what"])
